@@ -4,6 +4,9 @@ import E3fpVerif.DriverMetrics
 import E3fpVerif.DriverFprinter
 import E3fpVerif.DriverConfig
 import E3fpVerif.DriverPipeline
+import E3fpVerif.DriverSdf
+import E3fpVerif.DriverBatch
+import E3fpVerif.DriverConformer
 open Lean E3fpVerif
 
 structure St where
@@ -20,6 +23,9 @@ def dispatch (st : St) (j : Json) : St × Json :=
     else if op.startsWith "fpr." || op.startsWith "fpo." then return (st, ← fprinterOp op j)
     else if op.startsWith "cfg." then return (st, ← configOp op j)
     else if op.startsWith "pipe." then return (st, ← pipelineOp op j)
+    else if op.startsWith "sdf." then return (st, ← sdfOp op j)
+    else if op.startsWith "batch." then return (st, ← batchOp op j)
+    else if op.startsWith "conf." then return (st, ← conformerOp op j)
     else .error s!"unknown op {op}" : Except String (St × Json)) with
   | .ok r => r
   | .error e => (st, Json.mkObj [("driver_error", e)])
